@@ -81,6 +81,7 @@ def split_known(ctx, traces):
 
 
 def check(ctx):
+    vlib.translate(ctx, [("status_writes", "StatusWrites.lean")])
     vlib.prove(ctx, ["KrillModel.Props.C19"])
     found = False
     if vlib.build_harness(ctx, [HARNESS]):
@@ -152,9 +153,12 @@ MANIFEST = {
             "long as the server's content only changes through accepted deltas of this CA - with the negation of the unrestricted "
             "statement proved by a decide witness (F-C19-1: publisher removed and added again => duplicates and stale entries) and "
             "replayed on the implementation. Tied to the code by lock-step differential execution of the model against an in-process "
-            "krill (status harness) and by evaluating the theorem predicates on the implementation's own observation.",
+            "krill (status harness), by evaluating the theorem predicates on the implementation's own observation, and by tables "
+            "regenerated from the source on every run (what each status setter writes incl. the three arms of update_published; on "
+            "which reply arm manager.rs calls which setter; cache / storage calls of the store) with decide-checked theorems that "
+            "they are what the model implements.",
     "note": "Kernel-checked theorems are about the model. The tie is seeded differential execution plus hand-written scenarios for "
             "every refused-exchange kind; exchanges inside background task runs are taken from the observation and only their "
             "consequences are checked. Remote parents / remote publication servers are modelled but cannot be reached by the harness.",
-    "technique": "Lean 4 proof (induction over histories, projection lemmas) + correspondence check + oracle on the implementation's trace",
+    "technique": "Lean 4 proof (induction over histories, projection lemmas) + correspondence check + oracle on the implementation's trace + source translator",
 }
